@@ -44,7 +44,9 @@ func Parse(pattern string, desc bool) *Glob {
 outer:
 	for i := 0; i < len(pattern); i++ {
 		switch pattern[i] {
-		case '[', '*', '?':
+		case '[', '*', '?', '\\':
+			// An escape ends the literal prefix too: "a\*c" matches the
+			// id "a*c", which does not start with "a\".
 			_, err := Match(pattern, "whatever")
 			if err == nil {
 				isGlob = true
@@ -54,8 +56,10 @@ outer:
 		n++
 	}
 	if n == 0 {
-		g.Limits = []string{pattern, pattern}
-		g.IsGlob = false
+		// The pattern starts with an operator ("?k", "[ab]c"), so there is
+		// no literal prefix to bound the scan with. Leave the limits
+		// unbounded and let the matcher decide.
+		g.IsGlob = isGlob
 		return g
 	}
 	var a, b string
